@@ -113,10 +113,11 @@ def _p1_ret(style, edd, et):
 # P1.two: two parameters, the second with default (suffix-legal) + other scalar kinds -----------------------------
 def _p1_two(style, edd, et):
     def body(kind, b, i):
-        dv = {0: i, 1: b, 2: None, 3: 0.5, 4: -2.5, 5: 1e20, 6: 1e-07, 7: -2.5e-07, 8: 1e16}
-        tv = {0: "int", 1: "bool", 2: "Optional[int]", 3: "float", 4: "float", 5: "float", 6: "float", 7: "float", 8: "Optional[float]"}
+        dv = {0: i, 1: b, 2: None, 3: 0.5, 4: -2.5, 5: 1e20, 6: 1e-07, 7: -2.5e-07, 8: 1e16, 9: "5", 10: "-0.5", 11: "True", 12: "abc", 13: "7"}
+        tv = {0: "int", 1: "bool", 2: "Optional[int]", 3: "float", 4: "float", 5: "float", 6: "float", 7: "float", 8: "Optional[float]",
+              9: "Union[int, str]", 10: "Optional[Union[str, float]]", 11: "Union[bool, str]", 12: "Union[int, str]", 13: "str"}
         d, t = dv[0], tv[0]
-        for k in range(1, 9):
+        for k in range(1, 14):
             if kind == k:
                 d, t = dv[k], tv[k]
         return check(mk_ir([("a", {"typ": "str", "doc": "first arg"}), ("b", {"typ": t, "doc": "second arg", "default": d})]), style, edd, et)
@@ -141,8 +142,8 @@ for _s, _edd, _et in CONFIGS:
        bound="one parameter a:str with a default of 2 characters over the alphabet %r (solver-enumerated)" % SIGMA)(_p1_str(_s, _edd, _et, 2))
     ob("C01", "P1.ret.%s" % _t, {"x": PR, "y": PR}, pre="x != 47 and y != 47", T=300, tier="quick" if _edd and _et else "thorough", funcs=FUNCS, assumes=[ADHOC_SHIMS_DOC],
        bound="return entry bool with description 'the '+X+Y for EVERY printable X, Y except '/' (a documented type-hint trigger)")(_p1_ret(_s, _edd, _et))
-    ob("C01", "P1.two.%s" % _t, {"kind": R(0, 8), "b": BOOL, "i": R(-3, 3)}, T=300, funcs=FUNCS, assumes=[ADHOC_SHIMS_DOC],
-       bound="two parameters, second with default of kind int(-3..3)/bool/None/0.5/-2.5/1e20/1e-07/-2.5e-07/Optional[float]=1e16 (floats are enumerated: exponent forms with + and -)")(_p1_two(_s, _edd, _et))
+    ob("C01", "P1.two.%s" % _t, {"kind": R(0, 13), "b": BOOL, "i": R(-3, 3)}, T=400, funcs=FUNCS, assumes=[ADHOC_SHIMS_DOC],
+       bound="two parameters, second with default of kind int(-3..3)/bool/None/0.5/-2.5/1e20/1e-07/-2.5e-07/Optional[float]=1e16 (floats are enumerated: exponent forms with + and -), str defaults that look like numbers/bools under Union[..., str] / str")(_p1_two(_s, _edd, _et))
 
 
 # P1.dr: a defaulted parameter followed by a return entry (force-future-default must not leak into the return) -----
